@@ -190,3 +190,7 @@ BOUNDED = {'C16': [{'name': 'type-relations-differential', 'script': 'typediff.p
                     'functions': ['FeelType::is_equivalent', 'FeelType::is_conformant'],
                     'bound': 'every ordered pair of 79 types up to nesting depth 2 (6 simple types; lists, ranges, functions of arity 0..2 and contexts with 0..2 entries over 4 simple types; lists, functions and contexts over 8 of '
                              'those): 6 241 pairs against equivalence and conformance of DMN 1.3 section 10.3.2.9 written out in Python (bounded duplicate of the Verus contracts; decides the relations when a rewritten body leaves the extractor\'s reach)'}]}
+BOUNDED['C16'] = BOUNDED['C16'] + [{'name': 'coercion-differential', 'script': 'coercediff.py', 'args': [], 'functions': ['FeelType::coerced', 'Value::type_of', 'eval_function_positional (argument coercion)'],
+    'bound': '19 values (simple values, null, lists - empty, homogeneous, mixed, nested, singleton -, contexts with one / two entries, lists of contexts) x 15 parameter types (simple types, Any, lists, contexts with fewer / other entries, '
+             'a list of contexts, a range) through `(function(x: T) x)(V)`: the value itself when its type conforms, the item of a singleton list / a singleton list when that conforms, null otherwise; coercing twice changes nothing; '
+             'answers compared by FEEL equality (about 640 evaluations; bounded duplicate of types::FeelType::coerced::post_coerce)'}]
